@@ -362,3 +362,128 @@ func homeOf(c *core.Ctx, fn *ssa.Function, targets ...*types.Func) *ssa.Function
 	}
 	return fn
 }
+
+// memoTest: the If tests one pointer-typed struct field against nil; returns the field and the index of the edge taken when it is set.
+func memoTest(ifi *ssa.If) (*types.Var, int) {
+	bo, ok := ifi.Cond.(*ssa.BinOp)
+	if !ok || (bo.Op != token.NEQ && bo.Op != token.EQL) {
+		return nil, 0
+	}
+	x, y := bo.X, bo.Y
+	if core.IsNilConst(x) {
+		x, y = y, x
+	}
+	if !core.IsNilConst(y) {
+		return nil, 0
+	}
+	ld, ok := x.(*ssa.UnOp)
+	if !ok || ld.Op != token.MUL {
+		return nil, 0
+	}
+	fa, ok := ld.X.(*ssa.FieldAddr)
+	if !ok {
+		return nil, 0
+	}
+	if bo.Op == token.NEQ {
+		return core.FieldOf(fa), 0
+	}
+	return core.FieldOf(fa), 1
+}
+
+// computedOrMemo decides "fn answers from the current content": every successful exit of fn is preceded by target (the computation), or
+// the exits that skip it are all taken under one memo field being set, and then every store into one of contentFields — other than the
+// stores `sameContent` recognises as keeping the content (re-installing the computation's own result) — is followed, on every path to a
+// successful return, by a store of nil into that memo. A content write that leaves the memo makes fn answer for content that is gone.
+func computedOrMemo(c *core.Ctx, key string, fn *ssa.Function, target *types.Func, contentFields []*types.Var, sameContent func(*ssa.Store) bool) {
+	ps := passers(fn, target, 3)
+	if len(ps) == 0 {
+		c.Check(key, "must-call", false, fn.Pos(), "%s never calls %s", shortFn(fn), objName(target))
+		return
+	}
+	skips := skippingReturns(fn, ps, nil)
+	if len(skips) == 0 {
+		c.Check(key, "must-call", true, fn.Pos(), "every successful exit of %s is preceded by %s", shortFn(fn), objName(target))
+		return
+	}
+	var memo *types.Var
+	for _, b := range fn.Blocks {
+		ifi := ifOf(b)
+		if ifi == nil {
+			continue
+		}
+		f, setEdge := memoTest(ifi)
+		if f == nil {
+			continue
+		}
+		cut := map[[2]*ssa.BasicBlock]bool{{b, b.Succs[setEdge]}: true}
+		if len(skippingReturns(fn, ps, cut)) == 0 {
+			memo = f
+		}
+	}
+	if memo == nil {
+		c.Check(key, "must-call", false, skips[0].Pos(), "%s can answer without %s having run, and the skip is not a test of a single memo field", shortFn(fn), objName(target))
+		return
+	}
+	isContent := map[*types.Var]bool{}
+	for _, f := range contentFields {
+		isContent[f] = true
+	}
+	okAll, n := true, 0
+	var firstBad token.Pos
+	badName := ""
+	for _, g := range c.SrcFuncs {
+		if isTestHelper(c, g) || g.Pkg != fn.Pkg {
+			continue
+		}
+		var clears []ssa.Instruction
+		for _, st := range storesToO8(g, memo) {
+			if core.IsNilConst(st.Val) {
+				clears = append(clears, st)
+			}
+		}
+		for _, b := range g.Blocks {
+			for _, in := range b.Instrs {
+				st, ok := in.(*ssa.Store)
+				if !ok || !isContent[core.FieldOf(st.Addr)] {
+					continue
+				}
+				if fa, isFa := st.Addr.(*ssa.FieldAddr); isFa {
+					if _, fresh := fa.X.(*ssa.Alloc); fresh {
+						continue
+					}
+				}
+				if sameContent != nil && sameContent(st) {
+					continue
+				}
+				n++
+				covered := false
+				avoid := map[*ssa.BasicBlock]bool{}
+				for _, r := range clears {
+					if r.Block() == st.Block() && core.Dominates(st, r) {
+						covered = true
+					}
+					avoid[r.Block()] = true
+				}
+				if !covered {
+					covered = len(clears) > 0
+					rs := core.ReachCutAvoid(st.Block(), nil, avoid)
+					for _, ret := range core.Returns(g) {
+						if ret.Block() == g.Recover || (!rs[ret.Block()] && ret.Block() != st.Block()) {
+							continue
+						}
+						if core.ClassifyReturn(ret, nil, nil) != core.RetFailure {
+							covered = false
+						}
+					}
+				}
+				if !covered {
+					okAll = false
+					if firstBad == token.NoPos {
+						firstBad, badName = st.Pos(), shortFn(g)
+					}
+				}
+			}
+		}
+	}
+	c.Check(key, "must-call", okAll && n > 0, firstBad, "%s answers from the memo %s when it is set; then every write of the content must drop the memo on its way to a successful return (%d content writes; first uncovered one in %s)", shortFn(fn), memo.Name(), n, badName)
+}
